@@ -1208,6 +1208,21 @@ VARIANTS += [
 ]
 VARIANTS += [dict(v, prop="C13", name=v["name"] + "@C13") for v in VARIANTS if v["name"] == "ring-window-bindings-and-is-multiple-of"]
 
+VARIANTS += [
+    dict(prop="C12", name="tail-sum-saturating-start-scan-from-max", benign=True,
+         edits=[dict(file='ipa-core/src/protocol/ipa_prf/oprf_padding/insecure.rs', find='    for k in n - big_delta + 1..=n {', replace='    for k in n.saturating_sub(big_delta) + 1..=n {'), dict(file='ipa-core/src/protocol/ipa_prf/oprf_padding/insecure.rs', find='    for n in big_delta.. {', replace='    for n in big_delta.max(1).. {')]),
+    dict(prop="C12", name="truncation-scan-from-one", expect=['SHAPE-eq11', 'scan-from-big_delta'],
+         edits=[dict(file='ipa-core/src/protocol/ipa_prf/oprf_padding/insecure.rs', find='    for k in n - big_delta + 1..=n {', replace='    for k in n.saturating_sub(big_delta) + 1..=n {'), dict(file='ipa-core/src/protocol/ipa_prf/oprf_padding/insecure.rs', find='    for n in big_delta.. {', replace='    for n in 1.. {')]),
+]
+
+# behaviour-preserving refactorings written by independent sub-agents (round B1) that tripped a rule
+VARIANTS += [
+    dict(prop="C17", name="gather-loop-as-while-not-full", benign=True,
+         edits=[dict(file='ipa-core/src/helpers/transport/stream/input.rs', find="            // this must loop through the bytes buffers because we don't know how many buffers will\n            // be needed to fulfill `len`. e.g. if every buffer had length 1, we'd need to\n            // visit `len` buffers in order to fill `out_bytes`\n            loop {\n                let remaining_bytes = out_bytes.capacity() - out_bytes.len();\n                if remaining_bytes == 0 {\n                    break;\n                }\n                // current buffer has more bytes than needed\n                if self.buffered[0].len() > remaining_bytes {\n                    let remaining = self.buffered[0].split_to(remaining_bytes);\n", replace="            // this must loop through the bytes buffers because we don't know how many buffers will\n            // be needed to fulfill `len`. e.g. if every buffer had length 1, we'd need to\n            // visit `len` buffers in order to fill `out_bytes`\n            while out_bytes.len() < out_bytes.capacity() {\n                let remaining_bytes = out_bytes.capacity() - out_bytes.len();\n                // current buffer has more bytes than needed\n                if self.buffered[0].len() > remaining_bytes {\n                    let remaining = self.buffered[0].split_to(remaining_bytes);\n")]),
+    dict(prop="C17", name="payload-read-extracted-into-helper", benign=True,
+         edits=[dict(file='ipa-core/src/helpers/transport/stream/input.rs', find='            .map(|bytes| T::deserialize(GenericArray::from_slice(&bytes)))\n    }\n\n    /// Update the buffer with the result of polling a stream.\n    fn extend(&mut self, bytes: Option<Result<Bytes, BoxError>>) -> ExtendResult {\n        match bytes {\n', replace='            .map(|bytes| T::deserialize(GenericArray::from_slice(&bytes)))\n    }\n\n    /// Read the payload of a length-delimited item whose length prefix was `len`.\n    ///\n    /// Unlike [`Self::read_bytes`], a zero `len` is a valid (empty) payload that is always\n    /// available. Returns `None` if there are less than `len` bytes in the buffer.\n    fn read_payload(&mut self, len: usize) -> Option<Bytes> {\n        if len == 0 {\n            Some(Bytes::from(&[] as &[u8]))\n        } else {\n            self.read_bytes(len)\n        }\n    }\n\n    /// Update the buffer with the result of polling a stream.\n    fn extend(&mut self, bytes: Option<Result<Bytes, BoxError>>) -> ExtendResult {\n        match bytes {\n'), dict(file='ipa-core/src/helpers/transport/stream/input.rs', find='            }\n\n            if let Some(len) = *this.pending_len {\n                let bytes = if len == 0 {\n                    Some(Bytes::from(&[] as &[u8]))\n                } else {\n                    this.buffer.read_bytes(len)\n                };\n                if let Some(bytes) = bytes {\n                    *this.pending_len = None;\n                    consumed_len += len;\n                    match T::try_from(bytes) {\n', replace='            }\n\n            if let Some(len) = *this.pending_len {\n                if let Some(bytes) = this.buffer.read_payload(len) {\n                    *this.pending_len = None;\n                    consumed_len += len;\n                    match T::try_from(bytes) {\n')]),
+]
+
 # rules shared between properties: the same edit must be reported under the other property too
 VARIANTS += [dict(v, prop="C05", name=v["name"] + "@C05") for v in VARIANTS
              if v["name"] in ("h1-shuffle-empty-shard-leaves", "sharded-shuffle-empty-shard-leaves", "reshard-closes-channels-on-input-error", "reshard-closes-before-matching-none")]
